@@ -1,4 +1,439 @@
+//! mc-store: property C19 (a) `FilesystemStore` / `FilesystemStoreV2` as an atomic map – controlled
+//! scheduling of real threads + exhaustive sequential sequences – and (b, store side) the
+//! fault-injecting in-memory store used for `MonitorUpdatingPersister` crash consistency.
+mod conc;
+mod families;
+mod fstest;
+mod lin;
+mod sched;
+mod seq;
+mod xplore;
+
+use conc::{Scenario, Workdir};
+use mc_common::cli::{self, Tier};
+use mc_common::evidence::{Evidence, Level};
+use mc_common::findings::{self, Violation};
+use mc_common::{json, Value};
+use sched::{Action, Policy};
+use std::sync::Arc;
+use std::time::{Duration, Instant};
+
+const ID: &str = "C19";
+
+fn policy(args: &cli::Args) -> Policy {
+	let mut nopreempt: Vec<&'static str> = vec!["tmp-fsync", "dir-fsync", "read-dir-step"];
+	if args.opt("nopreempt") == Some("none") {
+		nopreempt.clear();
+	}
+	Policy { faults: args.opt_u64("faults").unwrap_or(1) != 0, nopreempt, hang_secs: args.opt_u64("hang").unwrap_or(15) }
+}
+
+fn policy_json(p: &Policy) -> Value {
+	json!({"faults": p.faults, "nopreempt": p.nopreempt})
+}
+
+fn policy_from_json(v: &Value, dflt: &Policy) -> Policy {
+	let mut p = dflt.clone();
+	if let Some(f) = v.get("faults").and_then(|f| f.as_bool()) {
+		p.faults = f;
+	}
+	if let Some(a) = v.get("nopreempt").and_then(|a| a.as_array()) {
+		let all = ["tmp-fsync", "dir-fsync", "read-dir-step"];
+		p.nopreempt = all.iter().filter(|k| a.iter().any(|x| x.as_str() == Some(**k))).cloned().collect();
+	}
+	p
+}
+
+fn replay(args: &cli::Args, path: &std::path::Path) -> ! {
+	let text = std::fs::read_to_string(path).unwrap_or_else(|e| cli::die(&format!("cannot read {}: {}", path.display(), e)));
+	let v: Value = mc_common::serde_json::from_str(&text).unwrap_or_else(|e| cli::die(&format!("replay file does not parse: {}", e)));
+	let r = if v.get("replay").is_some() { &v["replay"] } else { &v };
+	let wd = Workdir::new();
+	let mut fails: Vec<String> = Vec::new();
+	match r["part"].as_str() {
+		Some("conc") => {
+			let scn = Arc::new(Scenario::from_json(&r["scenario"]).unwrap_or_else(|| cli::die("bad scenario in replay file")));
+			let schedule: Vec<Action> = r["schedule"]
+				.as_array()
+				.unwrap_or_else(|| cli::die("schedule missing"))
+				.iter()
+				.map(|a| a.as_str().and_then(Action::decode).unwrap_or_else(|| cli::die("bad action in schedule")))
+				.collect();
+			let pol = policy_from_json(&r["policy"], &policy(args));
+			let a = conc::run_execution(&scn, &schedule, &pol, &wd);
+			let b = conc::run_execution(&scn, &schedule, &pol, &wd);
+			println!("scenario: {}", scn.short());
+			println!("schedule: {}", schedule.iter().map(|a| a.encode()).collect::<Vec<_>>().join(","));
+			for h in &a.history {
+				println!("  {}", h);
+			}
+			if args.opt("events").is_some() {
+				for e in &a.events {
+					println!("    t{}.{} {} {}{}", e.tid, e.op, e.kind, e.path, if e.injected { " [FAIL INJECTED]" } else { "" });
+				}
+			}
+			if a.digest != b.digest {
+				wd.cleanup();
+				cli::die(&format!("NONDETERMINISM: two replays of the same schedule differ ({:?} vs {:?})", a.history, b.history));
+			}
+			for f in &a.failures {
+				fails.push(format!("{}: {}", f.oracle, f.detail));
+			}
+		},
+		Some("seq") => {
+			let v2 = r["store"].as_str() == Some("v2");
+			let nss = seq::ns_set(r["ns_set"].as_str().unwrap_or("A")).unwrap_or_else(|| cli::die("bad ns_set"));
+			let ops: Vec<usize> = r["ops"]
+				.as_array()
+				.unwrap_or_else(|| cli::die("ops missing"))
+				.iter()
+				.map(|o| o.as_str().and_then(seq::op_from_code).unwrap_or_else(|| cli::die("bad op")))
+				.collect();
+			let mut st = seq::SeqStats::default();
+			match mc_common::par::guarded(|| seq::run_sequence(v2, &nss, &ops, true, &wd, &mut st)) {
+				Ok(Ok(())) => {},
+				Ok(Err(f)) => fails.push(format!("{}: {}", f.oracle, f.detail)),
+				Err(p) => fails.push(format!("no-panic: {}", p)),
+			}
+		},
+		Some("faultstore") => {
+			let ops: Vec<usize> = r["ops"]
+				.as_array()
+				.unwrap_or_else(|| cli::die("ops missing"))
+				.iter()
+				.map(|o| o.as_str().and_then(fstest::op_from_code).unwrap_or_else(|| cli::die("bad op")))
+				.collect();
+			let mut st = fstest::FsStats::default();
+			if let Err(e) = fstest::check_sequence(&ops, &mut st) {
+				fails.push(format!("faultstore-model: {}", e));
+			}
+		},
+		_ => cli::die("replay file has no known `part`"),
+	}
+	wd.cleanup();
+	if fails.is_empty() {
+		println!("REPLAY: property {} holds on this input", ID);
+		std::process::exit(0)
+	}
+	for f in &fails {
+		println!("REPLAY: still violates – {}", f);
+	}
+	std::process::exit(1)
+}
+
+/// The oracle must be able to fail: known-bad histories have to be rejected by the lineariser.
+fn oracle_self_check() {
+	use lin::{linearise, HKind, HOp, HRes};
+	let op = |call, ret, kind, res, version| HOp { call, ret, kind, res, version, label: String::new() };
+	let bad: Vec<(&str, [Option<u8>; 2], Vec<HOp>)> = vec![
+		("lost write", [None, None], vec![op(1, 2, HKind::Write { key: 0, val: 5 }, HRes::Ok, None), op(3, 4, HKind::Read { key: 0 }, HRes::NotFound, None)]),
+		("stale read", [Some(1), None], vec![op(1, 2, HKind::Write { key: 0, val: 5 }, HRes::Ok, None), op(3, 4, HKind::Read { key: 0 }, HRes::Val(1), None)]),
+		(
+			"version order",
+			[None, None],
+			vec![
+				op(1, 10, HKind::Write { key: 0, val: 5 }, HRes::Ok, Some(1)),
+				op(2, 11, HKind::Write { key: 0, val: 6 }, HRes::Ok, Some(2)),
+				op(20, 21, HKind::Read { key: 0 }, HRes::Val(5), None),
+			],
+		),
+		("list misses a stable key", [Some(1), Some(2)], vec![op(1, 4, HKind::Write { key: 0, val: 5 }, HRes::Ok, None), op(2, 3, HKind::List, HRes::Keys([true, false]), None)]),
+		("list invents a key", [None, None], vec![op(1, 4, HKind::Remove { key: 0 }, HRes::Ok, None), op(2, 3, HKind::List, HRes::Keys([true, false]), None)]),
+		(
+			"value goes back",
+			[None, None],
+			vec![
+				op(1, 10, HKind::Write { key: 0, val: 5 }, HRes::Ok, None),
+				op(2, 3, HKind::Read { key: 0 }, HRes::Val(5), None),
+				op(4, 5, HKind::Read { key: 0 }, HRes::NotFound, None),
+			],
+		),
+	];
+	for (name, init, h) in bad {
+		if linearise(init, &h).is_some() {
+			cli::die(&format!("oracle self-check: the bad history `{}` was accepted", name));
+		}
+	}
+	let good: Vec<(&str, [Option<u8>; 2], Vec<HOp>)> = vec![
+		(
+			"skipped stale write",
+			[None, None],
+			vec![
+				op(1, 20, HKind::Write { key: 0, val: 5 }, HRes::Ok, Some(1)),
+				op(2, 11, HKind::Write { key: 0, val: 6 }, HRes::Ok, Some(2)),
+				op(12, 13, HKind::Read { key: 0 }, HRes::Val(6), None),
+				op(30, 31, HKind::Read { key: 0 }, HRes::Val(6), None),
+			],
+		),
+		("failed write may apply", [None, None], vec![op(1, 2, HKind::Write { key: 0, val: 5 }, HRes::Failed, None), op(3, 4, HKind::Read { key: 0 }, HRes::Val(5), None)]),
+		("list during write", [None, None], vec![op(1, 4, HKind::Write { key: 0, val: 5 }, HRes::Ok, None), op(2, 3, HKind::List, HRes::Keys([true, false]), None)]),
+	];
+	for (name, init, h) in good {
+		if linearise(init, &h).is_none() {
+			cli::die(&format!("oracle self-check: the good history `{}` was rejected", name));
+		}
+	}
+}
+
 fn main() {
-	let _args = mc_common::cli::parse();
-	mc_common::cli::die("engine not built yet");
+	let args = cli::parse();
+	mc_common::par::install_quiet_panic_hook();
+	if let Some(p) = args.replay.clone() {
+		replay(&args, &p);
+	}
+	if args.property != ID {
+		cli::die(&format!("mc-store checks {} only (got `{}`)", ID, args.property));
+	}
+	let thorough = args.tier == Tier::Thorough;
+	let part = args.opt("part").unwrap_or("all").to_string();
+	let t_start = Instant::now();
+	let cap = if args.wall_cap_s > 0 { args.wall_cap_s } else if thorough { 1800 } else { 52 };
+	let deadline = t_start + Duration::from_secs(cap);
+	let mut ev = Evidence::new(ID, args.tier, args.seed, Level::ModelChecking);
+	let mut violations: Vec<Violation> = Vec::new();
+	let wd = Workdir::new();
+	oracle_self_check();
+	let mut capped_any = false;
+
+	// ------------------------------------------------------------------ (b, store side) faultstore
+	if part == "all" || part == "fault" {
+		let t0 = Instant::now();
+		if let Err(e) = fstest::extra_checks() {
+			violations.push(Violation {
+				property: ID.into(),
+				oracle: "faultstore-model".into(),
+				identity: format!("faultstore-model|extra|{}", e),
+				detail: format!("faultstore self-test: {}", e),
+				replay: json!({"part": "faultstore-extra"}),
+			});
+		}
+		let len = args.opt_u64("faultlen").unwrap_or(4) as usize;
+		let out = fstest::enumerate(len, args.threads);
+		for (ops, e) in out.failures.iter().take(10) {
+			let codes: Vec<String> = ops.iter().map(|o| fstest::op_code(*o)).collect();
+			violations.push(Violation {
+				property: ID.into(),
+				oracle: "faultstore-model".into(),
+				identity: format!("faultstore-model|{}", codes.join(",")),
+				detail: format!("faultstore differs from the reference model on [{}]: {}", codes.join(","), e),
+				replay: json!({"part": "faultstore", "ops": codes}),
+			});
+		}
+		if out.stats.crash_images_with_lost_lazy == 0 || out.stats.images_differing_from_no_loss == 0 || out.stats.faulted_runs == 0 {
+			cli::die("vacuity: faultstore self-test never built an image with a lost lazy removal that mattered / never injected a fault");
+		}
+		let mut j = out.stats.to_json();
+		j["sequence_length"] = json!(len);
+		j["alphabet"] = json!(fstest::N_OPS);
+		j["exhaustive"] = json!(true);
+		j["wall_s"] = json!(t0.elapsed().as_secs_f64());
+		j["what"] = json!("mc_store::faultstore::FaultStore vs an independent association-list model: every sequence of exactly this length (all shorter ones are checked prefixes) over 2 namespaces x 2 keys x {write, remove, lazy remove, read} + 2 lists; rebuild() for every prefix x every subset of lazy removals; crash_images(); a single failing call at every position in both modes");
+		ev.set("b_store_faultstore", j);
+		ev.sample(json!({"part": "faultstore", "ops": ["W00", "Z00", "W01", "R00"]}), 12);
+		eprintln!("[faultstore] {} sequences, {} crash images, {} faulted runs, {:.1}s", out.stats.sequences, out.stats.crash_images, out.stats.faulted_runs, t0.elapsed().as_secs_f64());
+	}
+
+	// ------------------------------------------------------------------ (a) sequential part
+	if part == "all" || part == "seq" {
+		let t0 = Instant::now();
+		let full: Vec<usize> = (0..seq::N_OPS).collect();
+		// quick, longest length only: three of the four (namespace, key) slots, one removal flavour per
+		// slot (alternating), both listings; thorough uses the full alphabet everywhere
+		let reduced: Vec<usize> = (0..seq::N_OPS)
+			.filter(|i| *i >= 16 || (*i / 4 != 3 && !((*i % 4 == 1 && (*i / 4) % 2 == 1) || (*i % 4 == 2 && (*i / 4) % 2 == 0))))
+			.collect();
+		let mut runs: Vec<(bool, &str, usize, Vec<usize>)> = Vec::new();
+		let seqlen = args.opt_u64("seqlen").unwrap_or(5) as usize;
+		for v2 in [false, true] {
+			if thorough {
+				runs.push((v2, "A", seqlen, full.clone()));
+				runs.push((v2, "B", seqlen, full.clone()));
+				runs.push((v2, "C", seqlen.min(4), full.clone()));
+			} else {
+				runs.push((v2, "A", seqlen.min(4), full.clone()));
+				runs.push((v2, "A", seqlen, reduced.clone()));
+				runs.push((v2, "B", seqlen.min(3), full.clone()));
+				runs.push((v2, "C", seqlen.min(3), full.clone()));
+			}
+		}
+		let seq_deadline = if thorough { deadline } else { t_start + Duration::from_secs(20) };
+		let mut jr = Vec::new();
+		let mut total = seq::SeqStats::default();
+		for (v2, nsname, len, alpha) in runs {
+			let nss = seq::ns_set(nsname).unwrap();
+			let out = seq::enumerate(v2, &nss, len, &alpha, thorough, args.threads, &wd, Some(seq_deadline));
+			for (ops, f) in out.failures.iter().take(10) {
+				let codes: Vec<String> = ops.iter().map(|o| seq::op_code(*o)).collect();
+				violations.push(Violation {
+					property: ID.into(),
+					oracle: format!("seq-{}", f.oracle),
+					identity: format!("seq-{}|{}|{}|{}", f.oracle, if v2 { "v2" } else { "v1" }, nsname, codes.join(",")),
+					detail: format!("{} ns-set {} sequence [{}]: {}", if v2 { "FilesystemStoreV2" } else { "FilesystemStore" }, nsname, codes.join(","), f.detail),
+					replay: seq::replay_json(v2, &nss, ops),
+				});
+			}
+			if !out.exhaustive {
+				capped_any = true;
+			}
+			jr.push(json!({
+				"store": if v2 {"v2"} else {"v1"}, "ns_set": nsname, "length": len, "alphabet": out.alphabet,
+				"sequences_run": out.stats.sequences, "ops": out.stats.ops, "exhaustive": out.exhaustive,
+				"distinct_final_states": out.stats.final_states.len(), "failures": out.failures.len(),
+			}));
+			total.merge(&out.stats);
+		}
+		if total.reads_with_data == 0 || total.reads_not_found == 0 || total.lists_nonempty == 0 || total.removes_of_present == 0 || total.overwrites == 0 {
+			cli::die("vacuity: the sequential part never read data / never hit NotFound / never listed a key / never removed or overwrote an existing key");
+		}
+		ev.set(
+			"a_sequential",
+			json!({
+				"runs": jr, "sequences_run": total.sequences, "ops": total.ops,
+				"reads_with_data": total.reads_with_data, "reads_not_found": total.reads_not_found,
+				"lists_nonempty": total.lists_nonempty, "removes_of_present": total.removes_of_present, "overwrites": total.overwrites,
+				"wall_s": t0.elapsed().as_secs_f64(),
+				"what": "every sequence of exactly `length` operations (shorter ones are checked prefixes) over 2 namespaces x 2 keys x {write, remove, lazy remove, read} + 2 lists on a fresh store and directory; each answer compared with a BTreeMap; at the end all keys read back, both listings, list_all_keys, list_paginated (v2), the raw directory (no stray or temporary file, exact contents) and the lock map (empty)",
+				"ns_sets": {"A": "(ns,'') and (ns,sub) – a namespace directory inside a listed namespace", "B": "('','') and (top,'') – empty primary namespace", "C": "120-character namespaces and keys"},
+			}),
+		);
+		ev.sample(json!({"part": "seq", "ops": ["W00", "R00", "Z00", "L0", "W10"]}), 12);
+		eprintln!("[seq] {} sequences, {} ops, {:.1}s", total.sequences, total.ops, t0.elapsed().as_secs_f64());
+	}
+
+	// ------------------------------------------------------------------ (a) concurrent part
+	let mut states = 0u64;
+	let mut transitions = 0u64;
+	let mut executions = 0u64;
+	if part == "all" || part == "conc" {
+		let t0 = Instant::now();
+		let scns = families::build(thorough, args.opt("family"));
+		let scns: Vec<Arc<Scenario>> = match args.opt_u64("maxscn") {
+			Some(n) => scns.into_iter().take(n as usize).collect(),
+			None => scns,
+		};
+		let k = args.opt_u64("k").unwrap_or(if thorough { 3 } else { 2 }) as u8;
+		let pol = policy(&args);
+		let cfg = xplore::XConfig {
+			k,
+			max_faults: args.opt_u64("maxfaults").unwrap_or(1) as u8,
+			threads: args.threads,
+			deadline: Some(deadline),
+			policy: pol.clone(),
+			det_sample: args.opt_u64("detsample").unwrap_or(64),
+		};
+		let (st, viols) = xplore::explore(&scns, &cfg, &wd);
+		if !st.det_mismatch.is_empty() {
+			wd.cleanup();
+			cli::die(&format!("NONDETERMINISM: replaying a schedule gave a different history: {}", st.det_mismatch.join(" || ")));
+		}
+		for v in &viols {
+			let scn = &scns[v.scn];
+			violations.push(Violation {
+				property: ID.into(),
+				oracle: v.oracle.clone(),
+				identity: format!("{}|{}", v.oracle, scn.short()),
+				detail: format!(
+					"{} – scenario `{}`, schedule [{}] ({} deviations); history: {}",
+					v.detail,
+					scn.short(),
+					v.schedule.iter().map(|a| a.encode()).collect::<Vec<_>>().join(","),
+					v.deviations,
+					v.history.join("; ")
+				),
+				replay: json!({"part": "conc", "scenario": scn.to_json(), "schedule": xplore::schedule_json(&v.schedule), "policy": policy_json(&pol)}),
+			});
+		}
+		executions = st.executions;
+		states = st.new_decisions + st.scenarios;
+		transitions = st.new_decisions;
+		capped_any |= st.capped;
+		// vacuity guards
+		if st.interleaved == 0 {
+			cli::die("vacuity: in no schedule did two threads' critical sections on the same key interleave at the filesystem level");
+		}
+		if st.final_states.len() < 2 {
+			cli::die("vacuity: fewer than two distinct final directory states");
+		}
+		if pol.faults && cfg.max_faults > 0 && k > 0 && st.faulted == 0 {
+			cli::die("vacuity: no filesystem step failure was ever injected");
+		}
+		if st.bound_completed.is_none() {
+			cli::die("the wall cap hit before even the preemption-free schedules were done");
+		}
+		if k >= 1 && st.preempted_by_kind.is_empty() {
+			cli::die("vacuity: no preemption was ever taken");
+		}
+		let fam: Value = st
+			.per_family
+			.iter()
+			.map(|(k, f)| {
+				(k.clone(), json!({"scenarios": f.scenarios, "schedules": f.executions, "interleaved_critical_sections": f.interleaved, "with_injected_fault": f.faulted, "max_decisions": f.max_decisions}))
+			})
+			.collect::<mc_common::serde_json::Map<String, Value>>()
+			.into();
+		ev.set(
+			"a_concurrent",
+			json!({
+				"scenarios": st.scenarios, "families": fam,
+				"schedules": st.executions, "schedules_per_deviation_level": st.executions_per_level,
+				"deviation_bound_requested": st.bound_requested, "deviation_bound_completed": st.bound_completed,
+				"deviation_rule": "a schedule's deviations = preemptions (switching away from a thread that could continue) + injected step failures (at most max_faults); all schedules with at most `deviation_bound_completed` deviations were executed, each to quiescence",
+				"max_faults_per_schedule": cfg.max_faults,
+				"capped": st.capped,
+				"scheduler_decisions": st.new_decisions + st.replayed_decisions, "new_decisions": st.new_decisions,
+				"max_decisions_in_one_schedule": st.max_depth,
+				"schedules_with_interleaved_critical_sections": st.interleaved,
+				"schedules_with_injected_fault": st.faulted, "injected_faults_by_step": st.faulted_by_kind,
+				"preemptions_by_point": st.preempted_by_kind,
+				"points_reached_by_kind": st.point_kinds,
+				"schedules_with_failed_operation": st.failed_ops_observed,
+				"distinct_final_directory_states": st.final_states.len(),
+				"distinct_observed_histories": st.labels.len(),
+				"deadlocks": st.deadlocks,
+				"determinism_reexecutions": st.det_checked,
+				"observation_lockmap_entries_left_at_quiescence": {
+					"note": "not part of the property statement (memory only, the entry is removed by the next operation on the same path); reported as an observation, not a violation",
+					"schedules": st.lockmap_leftover_execs,
+					"schedules_without_injected_fault": st.lockmap_leftover_faultfree_execs,
+					"sample_without_fault": st.lockmap_leftover_faultfree_sample,
+					"sample_with_fault": st.lockmap_leftover_sample,
+				},
+				"non_preemptible_points": pol.nopreempt,
+				"wall_s": t0.elapsed().as_secs_f64(),
+			}),
+		);
+		for s in &st.samples {
+			ev.sample(s.clone(), 12);
+		}
+		eprintln!(
+			"[conc] {} scenarios, {} schedules (levels {:?}), bound {:?}/{}, capped={}, interleaved={}, faulted={}, final states={}, lockmap-leftover={}, {:.1}s",
+			st.scenarios,
+			st.executions,
+			st.executions_per_level,
+			st.bound_completed,
+			st.bound_requested,
+			st.capped,
+			st.interleaved,
+			st.faulted,
+			st.final_states.len(),
+			st.lockmap_leftover_execs,
+			t0.elapsed().as_secs_f64()
+		);
+	}
+	wd.cleanup();
+
+	ev.set("states", states.max(1));
+	ev.set("states_rule", "stateless exploration: number of distinct scheduler-decision prefixes executed (nodes of the schedule tree), summed over scenarios");
+	ev.set("transitions", transitions.max(1));
+	ev.set("traces_validated_against_impl", executions);
+	ev.set("capped", capped_any);
+	ev.set("parts_run", part.clone());
+	ev.assume("tmpfs (/dev/shm) behaves like a POSIX filesystem for open/write/fsync/rename/unlink/readdir; reordering inside the OS on power loss is not modelled (the storage crash model is the operation-prefix model of C19b)");
+	ev.assume("the store's shared state is only reachable through Mutex/RwLock/atomics in safe Rust, so the H7 points (before every lock acquisition, after every release, before every filesystem step) are the only places where threads can observe each other; memory orderings weaker than sequential consistency are not explored");
+	ev.assume("fsync steps (tmp-fsync, dir-fsync) and read_dir iteration steps are not preemption points: nothing another thread can observe changes between them and the preceding point (on tmpfs fsync is a no-op and readdir has buffered the whole small directory); they are still fault-injection points");
+	ev.assume("the asynchronous KVStore shape is exercised through H7 wrappers that run the two halves of write_async/remove_async (version + lock reference taken at call time; write_version/remove_version later) without tokio; the tokio plumbing itself (spawn_blocking, JoinError mapping) is not executed");
+	ev.assume("an operation that returned an (injected) I/O error may or may not have taken effect and is exempt from the version-order rule; list is not required to be atomic with respect to mutations it overlaps");
+	ev.assume("Windows code paths (ReplaceFileW / trash files) are not compiled here");
+	ev.assume("callers respect the documented KVStore precondition that keys do not collide with namespace names of the same level (v1 maps both to the same path)");
+	std::process::exit(findings::conclude(ID, &violations, &mut ev));
 }
